@@ -33,7 +33,7 @@ FLAVOUR = {"P": "plain", "K": "clone", "Y": "copy"}
 
 
 def flavour_of(ty):
-    if re.fullmatch(r"T[0-9][PKY]", ty):
+    if re.fullmatch(r"[TN][0-9][PKY]", ty):
         return ty[2]
     if ty == "PbK":
         return "K"
